@@ -62,7 +62,7 @@ def _simpler_numbers(v):
 
 
 class Minimiser:
-    def __init__(self, attempt, key, budget_s, protect=("kind", "prop", "version", "seed")):
+    def __init__(self, attempt, key, budget_s, protect=("kind", "prop", "version", "seed", "hold", "rounds", "grace")):
         self.attempt = attempt
         self.key = key
         self.deadline = time.monotonic() + budget_s
@@ -110,6 +110,10 @@ class Minimiser:
                 if not isinstance(cur, list) or not cur:
                     continue
                 if path and (path[-1] in self.protect or "knobs" in path):
+                    continue
+                if isinstance(cur[0], str) and ("steps" in path or "script" in path):
+                    # one op-coded step ["op", arg, ...]: removable as a whole (from its parent
+                    # list), never truncated - a truncated step is a harness error, not a scenario
                     continue
                 n = len(cur)
                 chunk = max(1, n // 2)
